@@ -98,38 +98,100 @@ Qed.
    t' = norm_box t; for a rebuilt stsc leaf t' carries the sample description ids in the form the decoder builds) *)
 Definition ppr (t t' : mbox) : Prop :=
   exists enc, raw_box false t = Ok enc /\ lenN enc = size_box t /\ size_box t' = size_box t /\
-    box_name t' = box_name t /\
+    box_name t' = box_name t /\ (need t' <= length enc)%nat /\
     forall f r2, (need t' <= f)%nat -> decode_box f (enc ++ r2) = Ok (t', r2).
 Definition pp (t : mbox) : Prop := ppr t (norm_box t).
+
+(* the fuel a tree needs is at most the number of bytes it is encoded in *)
+Lemma needs_le_sum cs : forall encs enc, Forall2 (fun c e => e = raw_box false c) cs (map snd encs) ->
+  Forall (fun c => forall e, raw_box false c = Ok e -> (need c <= length e)%nat) cs ->
+  cat_encs encs = Ok enc -> (needs cs <= S (length enc))%nat.
+Proof.
+  induction cs as [|c t IH]; intros encs enc H2 HF Hc.
+  - cbn. lia.
+  - destruct encs as [|e0 et]; [inversion H2|]. cbn [map] in H2. inversion H2 as [|? ? ? ? He0 Het]; subst.
+    inversion HF as [|? ? Hc0 Hct]; subst.
+    cbn [cat_encs fold_right] in Hc. fold (cat_encs et) in Hc. rewrite He0 in Hc.
+    destruct (rcat_ok _ _ _ Hc) as (x & y & Hx & Hy & ->).
+    specialize (IH et y Het Hct Hy). specialize (Hc0 x Hx). pose proof (need_pos c).
+    rewrite needs_cons, app_length. lia.
+Qed.
+Lemma genc_snd cs : Forall2 (fun c e => e = raw_box false c) cs (map snd (map (genc false) cs)).
+Proof. induction cs as [|c t IH]; [constructor|]. cbn [map genc snd]. constructor; [reflexivity|exact IH]. Qed.
+
+Lemma need_le_raw t : exact_box t = true -> forall enc, raw_box false t = Ok enc -> (need t <= length enc)%nat.
+Proof.
+  induction t as [h l r|h cs IH|h p|h l r cs IH] using mbox_rect2; intros Hex enc He.
+  - cbn [raw_box] in He. unfold raw_leaf in He. destruct (body_leaf l (dflt_rsv l)) as [b| | |]; try discriminate.
+    injection He as <-. cbn [need]. rewrite app_length. unfold leaf_hdr, enc_hdr, enc_hdr_large.
+    destruct (leaf_large l); rewrite !app_length, length_be_enc; lia.
+  - cbn [exact_box] in Hex.
+    apply andb_true_iff in Hex. destruct Hex as [Hex _].
+    apply andb_true_iff in Hex. destruct Hex as [Hex Hmoov].
+    apply andb_true_iff in Hex. destruct Hex as [_ Hcs].
+    rewrite raw_box_cont in He. cbv zeta in He.
+    assert (Hord : (if bytes_eqb (h_name h) n_moov then moov_order fst (map (genc false) cs) else map (genc false) cs)
+                   = map (genc false) cs).
+    { destruct (bytes_eqb (h_name h) n_moov); [|reflexivity]. cbn [negb orb] in Hmoov.
+      unfold moov_order. rewrite moov_stable_id; [reflexivity|].
+      change (@nil (bool * res (list N))) with (map (genc false) []).
+      rewrite (moov_stable_map is_trak_box (genc false)); [assumption|reflexivity]. }
+    rewrite Hord in He.
+    assert (Hall : exists body, cat_encs (map (genc false) cs) = Ok body /\
+                     enc = enc_hdr (h_name h) (8 + sumN (map size_box cs)) ++ body).
+    { destruct (cat_encs (map (genc false) cs)) as [body| | |] eqn:Eb; cbn [rcat] in He;
+        try (destruct (bytes_eqb (h_name h) n_moof); [destruct (moof_pre cs)|]; discriminate).
+      exists body. split; [reflexivity|].
+      destruct (bytes_eqb (h_name h) n_moof); [destruct (moof_pre cs); try discriminate|]; now injection He as <-. }
+    destruct Hall as (body & Hb & ->). rewrite need_cont, app_length. unfold enc_hdr. rewrite app_length, length_be_enc.
+    assert (HF : Forall (fun c => forall e, raw_box false c = Ok e -> (need c <= length e)%nat) cs).
+    { apply Forall_forall. intros c Hin e Hce. apply (proj1 (Forall_forall _ _) IH c Hin); [|exact Hce].
+      exact (proj1 (forallb_forall _ _) Hcs c Hin). }
+    pose proof (needs_le_sum cs _ body (genc_snd cs) HF Hb). lia.
+  - cbn [raw_box] in He. injection He as <-. cbn [need]. rewrite app_length.
+    destruct (8 <? h_len h); unfold enc_hdr, enc_hdr_large; rewrite !app_length, length_be_enc; lia.
+  - cbn [exact_box] in Hex.
+    apply andb_true_iff in Hex. destruct Hex as [Hex Hcs].
+    rewrite raw_box_pre in He.
+    destruct (rcat_ok _ _ _ He) as (x & y & Hx & Hy & ->). injection Hx as <-.
+    destruct (rcat_ok _ _ _ Hy) as (b & body & _ & Hb & ->).
+    rewrite need_pre, !app_length. unfold enc_hdr. rewrite app_length, length_be_enc.
+    assert (HF : Forall (fun c => forall e, raw_box false c = Ok e -> (need c <= length e)%nat) cs).
+    { apply Forall_forall. intros c Hin e Hce. apply (proj1 (Forall_forall _ _) IH c Hin); [|exact Hce].
+      exact (proj1 (forallb_forall _ _) Hcs c Hin). }
+    pose proof (needs_le_sum cs _ body (genc_snd cs) HF Hb). lia.
+Qed.
 
 (* every decoded exact tree (C01's stable_all), at every fuel the structure needs *)
 Lemma pp_decoded f bs t rest : bytes_ok bs = true -> decode_box f bs = Ok (t, rest) -> exact_box t = true -> pp t.
 Proof.
   intros Hok H Hex. destruct (proj1 (stable_all f) bs t rest Hok H Hex) as (enc & He & _ & Hs & Hrep).
   exists enc. split; [exact He|]. split; [exact Hs|]. split; [apply size_norm|]. split; [apply name_norm|].
+  split; [rewrite need_norm; now apply need_le_raw|].
   intros f' r2 Hn. exact (proj1 (fuel_indep f) _ _ _ (Hrep r2) f' Hn).
 Qed.
 
 Lemma ppr_size_pos t t' : ppr t t' -> 0 < size_box t.
 Proof.
-  intros (enc & _ & Hl & _ & _ & Hrep). specialize (Hrep (need t') [] (le_n _)). rewrite app_nil_r in Hrep.
+  intros (enc & _ & Hl & _ & _ & _ & Hrep). specialize (Hrep (need t') [] (le_n _)). rewrite app_nil_r in Hrep.
   destruct enc as [|b e]; [|rewrite <- Hl, lenN_cons; lia].
   exfalso. pose proof (need_pos t') as Hp. destruct (need t'); [lia|]. cbn in Hrep. discriminate.
 Qed.
 
 Lemma ppr_children cs cs' : Forall2 ppr cs cs' ->
   exists enc, cat_encs (map (genc false) cs) = Ok enc /\ lenN enc = sumN (map size_box cs) /\
-    map size_box cs' = map size_box cs /\ map box_name cs' = map box_name cs /\
+    map size_box cs' = map size_box cs /\ map box_name cs' = map box_name cs /\ (needs cs' <= S (length enc))%nat /\
     forall f pos r2, (needs cs' <= f)%nat ->
       decode_children f (pos + sumN (map size_box cs)) pos pos (enc ++ r2) = Ok (cs', r2).
 Proof.
-  induction 1 as [|c c' t t' Hc _ (e2 & He2 & Hl2 & Hs2 & Hn2 & Hrep2)].
-  - exists []. repeat split; try reflexivity. intros f pos r2 Hn. destruct f; [cbn in Hn; lia|].
+  induction 1 as [|c c' t t' Hc _ (e2 & He2 & Hl2 & Hs2 & Hn2 & Hb2 & Hrep2)].
+  - exists []. do 4 (split; [reflexivity|]). split; [cbn; lia|]. intros f pos r2 Hn. destruct f; [cbn in Hn; lia|].
     cbn [decode_children map sumN app]. rewrite N.add_0_r, N.ltb_irrefl, N.eqb_refl. reflexivity.
-  - pose proof (ppr_size_pos _ _ Hc) as Hpos. destruct Hc as (e1 & He1 & Hl1 & Hs1 & Hn1 & Hrep1).
+  - pose proof (ppr_size_pos _ _ Hc) as Hpos. destruct Hc as (e1 & He1 & Hl1 & Hs1 & Hn1 & Hb1 & Hrep1).
     exists (e1 ++ e2). cbn [map cat_encs fold_right genc snd sumN]. fold (cat_encs (map (genc false) t)).
     rewrite He1, He2. cbn [rcat]. split; [reflexivity|]. split; [rewrite lenN_app; lia|].
     split; [now rewrite Hs1, Hs2|]. split; [now rewrite Hn1, Hn2|].
+    split; [rewrite needs_cons, app_length; pose proof (need_pos c'); lia|].
     intros f pos r2 Hn. rewrite needs_cons in Hn. destruct f as [|f]; [lia|]. cbn [decode_children].
     replace (pos + (size_box c + sumN (map size_box t)) <? pos) with false by (symmetry; apply N.ltb_ge; lia).
     replace (pos =? pos + (size_box c + sumN (map size_box t))) with false by (symmetry; apply N.eqb_neq; lia).
@@ -156,7 +218,7 @@ Lemma ppr_cont n cs cs' :
   Forall2 ppr cs cs' -> ppr (mk_cont n cs) (mk_cont n cs').
 Proof.
   intros Hn4 Hleaf Hpre Hcont Hmoof Hmoov Hedts Hfit Hcs.
-  destruct (ppr_children cs cs' Hcs) as (enc & Henc & Hl & Hss & Hnn & Hrep).
+  destruct (ppr_children cs cs' Hcs) as (enc & Henc & Hl & Hss & Hnn & Hbd & Hrep).
   exists (enc_hdr n (8 + sumN (map size_box cs)) ++ enc). unfold mk_cont. rewrite raw_box_cont. cbv zeta. cbn [h_name].
   assert (Hord : (if bytes_eqb n n_moov then moov_order fst (map (genc false) cs) else map (genc false) cs)
                  = map (genc false) cs).
@@ -168,6 +230,7 @@ Proof.
   split. { cbn [size_box]. unfold enc_hdr. rewrite !lenN_app, lenN_be_enc, Hn4, Hl. reflexivity. }
   split. { cbn [size_box]. now rewrite Hss. }
   split; [reflexivity|].
+  split. { rewrite need_cont. unfold enc_hdr. rewrite !app_length, length_be_enc. lia. }
   intros f r2 Hn. rewrite need_cont in Hn. destruct f as [|f]; [lia|]. cbn [decode_box].
   rewrite <- app_assoc, header_rt by (try assumption; lia). cbn [h_size h_len h_name].
   replace (lenN (enc ++ r2) + 8 <? 8 + sumN (map size_box cs)) with false
@@ -194,6 +257,7 @@ Proof.
   rewrite Hb, Hlarge. split; [reflexivity|].
   split. { cbn [size_box]. unfold enc_hdr. rewrite !lenN_app, lenN_be_enc, Hn4. lia. }
   split; [cbn [size_box]; exact Hsl|]. split; [cbn [box_name]; exact Hnm|].
+  split. { cbn [need]. unfold enc_hdr. rewrite !app_length, length_be_enc. lia. }
   intros f r2 Hn. cbn [need] in Hn. destruct f as [|f]; [lia|]. cbn [decode_box].
   rewrite <- app_assoc, header_rt by (try assumption; lia). cbn [h_size h_len h_name].
   replace (lenN (b ++ r2) + 8 <? size_leaf l) with false by (symmetry; apply N.ltb_ge; rewrite lenN_app; lia).
@@ -858,4 +922,159 @@ Proof.
   apply (ppr_upd_cont n_moov); try assumption; [apply in_six; tauto| |].
   - intros cs Hcs He' Ht'. now apply ppr_moov_children.
   - intros cs. apply names_moov_children.
+Qed.
+
+(* ---------------------------------------------------------------- the file *)
+Lemma decode_seq_mono f : forall bs ts k, decode_seq f bs = Ok ts -> decode_seq (f + k) bs = Ok ts.
+Proof.
+  induction f as [|f IH]; intros bs ts k H; [discriminate|]. cbn [decode_seq Nat.add] in *.
+  destruct bs as [|b bs']; [exact H|].
+  destruct (decode (b :: bs')) as [[t r]| | |]; try discriminate.
+  destruct (decode_seq f r) as [ts'| | |] eqn:E; try discriminate. now rewrite (IH _ _ k E).
+Qed.
+
+Lemma ppr_seq ts ts' : Forall2 ppr ts ts' ->
+  exists enc, encode_seq false ts = Ok enc /\ lenN enc = sumN (map size_box ts) /\ (length ts <= length enc)%nat /\
+    forall tail tts ft, decode_seq ft tail = Ok tts -> decode_seq (length ts + ft) (enc ++ tail) = Ok (ts' ++ tts).
+Proof.
+  induction 1 as [|c c' t t' Hc _ (e2 & He2 & Hl2 & Hn2 & Hrep2)].
+  - exists []. repeat split; try reflexivity. intros tail tts ft H. exact H.
+  - pose proof (ppr_size_pos _ _ Hc) as Hpos. destruct Hc as (e1 & He1 & Hl1 & Hs1 & Hn1 & Hb1 & Hrep1).
+    assert (He1n : (1 <= length e1)%nat) by (unfold lenN in Hl1; lia).
+    exists (e1 ++ e2). cbn [encode_seq map sumN]. rewrite He1, He2. cbn [rcat].
+    split; [reflexivity|]. split; [rewrite lenN_app; lia|]. split; [rewrite app_length; cbn [length]; lia|].
+    intros tail tts ft H. cbn [length Nat.add decode_seq].
+    destruct ((e1 ++ e2) ++ tail) as [|b bs'] eqn:Ebs.
+    { exfalso. apply (f_equal (@length N)) in Ebs. rewrite !app_length in Ebs. cbn [length] in Ebs. lia. }
+    rewrite <- Ebs. unfold decode. rewrite <- app_assoc.
+    rewrite Hrep1 by (rewrite app_length; lia). rewrite (Hrep2 _ _ _ H). reflexivity.
+Qed.
+
+Lemma dx_of_seq f : forall bs ts, bytes_ok bs = true -> decode_seq f bs = Ok ts -> forallb exact_box ts = true ->
+  Forall dx ts.
+Proof.
+  induction f as [|f IH]; intros bs ts Hok H Hex; [discriminate|]. cbn [decode_seq] in H.
+  destruct bs as [|b bs']; [injection H as <-; constructor|].
+  unfold decode in H.
+  destruct (decode_box (S (length (b :: bs'))) (b :: bs')) as [[t r]| | |] eqn:Eb; try discriminate.
+  destruct (decode_seq f r) as [ts'| | |] eqn:Es; try discriminate. injection H as <-.
+  cbn [forallb] in Hex. apply andb_true_iff in Hex. destruct Hex as [Ht Hts].
+  destruct (proj1 (tree_both _) _ _ _ Hok Eb Ht) as (_ & _ & _ & Hokr).
+  constructor; [now exists (S (length (b :: bs'))), (b :: bs'), r|]. exact (IH _ _ Hokr Es Hts).
+Qed.
+
+Lemma few_inv ts : forall pre, file_encode_w ts = Ok pre -> forallb enc_fits ts = true /\ encode_seq false ts = Ok pre.
+Proof.
+  induction ts as [|t r IH]; intros pre H; [now split|]. cbn [file_encode_w encode_seq forallb] in *.
+  destruct (rcat_ok _ _ _ H) as (x & y & Hx & Hy & ->). destruct (IH _ Hy) as [Hf Hs].
+  unfold encode_w in Hx. destruct (raw_box false t) as [b| | |]; try discriminate.
+  destruct (enc_fits t && caps_ok t) eqn:E; try discriminate. injection Hx as <-.
+  apply andb_true_iff in E. destruct E as [E _]. rewrite E, Hf, Hs. now split.
+Qed.
+
+(* C08's four-byte big endian = C01's *)
+Lemma be32_be_enc x : x < 4294967296 -> C08Model.be32 x = be_enc 4 x.
+Proof.
+  intros Hx. Transparent be_enc. unfold be_enc, C08Model.be32. cbn [le_enc rev app]. Opaque be_enc.
+  rewrite !N.div_div by discriminate. cbn [N.mul Pos.mul].
+  rewrite (N.mod_small (x / 16777216)) by (apply N.div_lt_upper_bound; [discriminate|exact Hx]).
+  reflexivity.
+Qed.
+
+Definition mdat_box (body : list N) : mbox := MLeaf (mkHdr n_mdat (8 + lenN body) 8) (LMdat false body) [].
+Lemma mdat_decodes body : 8 + lenN body < 4294967296 ->
+  decode_seq 2 (enc_hdr n_mdat (8 + lenN body) ++ body) = Ok [mdat_box body].
+Proof.
+  intros Hb. cbn [decode_seq].
+  destruct (enc_hdr n_mdat (8 + lenN body) ++ body) as [|b bs'] eqn:Ebs.
+  { exfalso. apply (f_equal (@length N)) in Ebs. unfold enc_hdr in Ebs. rewrite !app_length, length_be_enc in Ebs.
+    cbn [length] in Ebs. lia. }
+  rewrite <- Ebs. unfold decode. cbn [decode_box].
+  rewrite header_rt by (try reflexivity; lia). cbn [h_size h_len h_name].
+  replace (bytes_eqb n_mdat n_mdat) with true by reflexivity. rewrite andb_false_r.
+  replace (lookup n_mdat leaf_table) with (Some dec_mdat) by reflexivity.
+  unfold dec_mdat, payload_len. cbn [h_size h_len]. replace (8 + lenN body - 8) with (lenN body) by lia.
+  assert (Hr : rdB (lenN body) body = Ok (body, [])) by (rewrite <- (app_nil_r body) at 2; apply rdB_app).
+  rewrite Hr. reflexivity.
+Qed.
+
+(* ---------------------------------------------------------------- mp4ff-crop *)
+From V.c10 Require Import C10Model C10FileModel.
+
+Lemma write_mdat_shape file zeof m rs mb : write_mdat file zeof m rs = Ok mb ->
+  exists body, u64 (ranges_size rs 0 + 8) < 4294967296 /\ lenN body = ranges_size rs 0 /\
+    mb = C08Model.be32 (u32 (u64 (ranges_size rs 0 + 8))) ++ C08Model.name_mdat ++ body.
+Proof.
+  unfold write_mdat. intros H.
+  destruct (4294967296 <=? u64 (ranges_size rs 0 + 8)) eqn:E; [discriminate|]. apply N.leb_gt in E.
+  unfold C08Model.encode_header_with_size in H. cbn [negb andb] in H.
+  replace (4294967296 <=? u64 (ranges_size rs 0 + 8)) with false in H by (symmetry; now apply N.leb_gt).
+  cbn [rbind] in H.
+  destruct (copy_ranges file zeof m rs) as [body| | |]; try discriminate. cbn [rbind] in H.
+  destruct (lenN body =? ranges_size rs 0) eqn:El; [|discriminate]. injection H as <-.
+  exists body. apply N.eqb_eq in El. split; [assumption|]. split; [assumption|]. reflexivity.
+Qed.
+
+Definition out_tree (nd : N) (xs : list (C09Model.tables * hdr_trak)) (ts : list mbox) : list mbox :=
+  map (fun t => if named n_moov t then out_moov nd xs t else t) (non_mdat ts).
+Definition out_tree_decoded (nd : N) (xs : list (C09Model.tables * hdr_trak)) (ts : list mbox) : list mbox :=
+  map (fun t => if named n_moov t then out_moov_decoded nd xs t else norm_box t) (non_mdat ts).
+
+Lemma crop_tree_shape ts ci ms out ranges swm : crop_tree ts ci ms = Ok (out, ranges, swm) ->
+  exists nd xs, out = out_tree nd xs ts.
+Proof.
+  unfold crop_tree. destruct (file_frag ts); [discriminate|].
+  destruct (crop_mp4_all (ci_hs ci) (ci_mvts ci) (ci_tks ci) ms (ci_rest ci)) as [r| | |]; try discriminate.
+  cbn [rbind]. destruct r as [[[et ets] [[[tbs rg] kept] sw]] [nd tks']]. intros H. injection H as <- _ _.
+  now exists nd, (combine tbs tks').
+Qed.
+
+Lemma crop_output_decodes input ts ci ms out ranges swm out_bytes :
+  bytes_ok input = true -> decode_file input = Ok ts -> forallb exact_box ts = true ->
+  scope input ts = Some ci -> crop_tree ts ci ms = Ok (out, ranges, swm) ->
+  crop_tool_ts input ts ms = Some (Ok out_bytes) ->
+  forallb tree_fits out = true -> lenN out_bytes < 18446744073709551616 ->
+  exists nd xs pre body,
+    out = out_tree nd xs ts /\
+    file_encode_w out = Ok pre /\ encode_seq false out = Ok pre /\ lenN pre = sumN (map size_box out) /\
+    write_mdat input true (ci_mdat ci) ranges = Ok (enc_hdr n_mdat (8 + lenN body) ++ body) /\
+    lenN body = ranges_size ranges 0 /\ 8 + lenN body < 4294967296 /\
+    out_bytes = pre ++ enc_hdr n_mdat (8 + lenN body) ++ body /\
+    decode_file out_bytes = Ok (out_tree_decoded nd xs ts ++ [mdat_box body]).
+Proof.
+  intros Hok Hdec Hex Hsc Hct Htool Hfits Hlen.
+  destruct (crop_tree_shape _ _ _ _ _ _ Hct) as (nd & xs & Hout).
+  unfold crop_tool_ts in Htool. rewrite Hsc, Hct in Htool. cbn [rbind] in Htool.
+  destruct (file_encode_w out) as [pre| | |] eqn:Epre; try discriminate. cbn [rbind] in Htool.
+  destruct (write_mdat input true (ci_mdat ci) ranges) as [mb| | |] eqn:Emb; try discriminate. cbn [rbind] in Htool.
+  injection Htool as <-.
+  destruct (few_inv _ _ Epre) as [Hef Hseq].
+  destruct (write_mdat_shape _ _ _ _ _ Emb) as (body & Hpsz & Hbl & ->).
+  rewrite lenN_app in Hlen. rewrite !lenN_app in Hlen.
+  assert (Hb4 : lenN (C08Model.be32 (u32 (u64 (ranges_size ranges 0 + 8)))) = 4) by reflexivity.
+  assert (Hn4 : lenN C08Model.name_mdat = 4) by reflexivity.
+  assert (Hsmall : ranges_size ranges 0 + 8 < 18446744073709551616) by lia.
+  assert (Hu : u64 (ranges_size ranges 0 + 8) = 8 + lenN body) by (unfold u64; rewrite N.mod_small by lia; lia).
+  rewrite Hu in *. rewrite (u32_small _ Hpsz) in *. rewrite (be32_be_enc _ Hpsz) in *.
+  change C08Model.name_mdat with n_mdat in *.
+  change (be_enc 4 (8 + lenN body) ++ n_mdat ++ body) with (be_enc 4 (8 + lenN body) ++ (n_mdat ++ body)) in *.
+  rewrite (app_assoc (be_enc 4 (8 + lenN body)) n_mdat body) in *. fold (enc_hdr n_mdat (8 + lenN body)) in *.
+  (* every non-mdat box prints and parses *)
+  pose proof (dx_of_seq _ _ _ Hok Hdec Hex) as Hdx.
+  assert (H2 : Forall2 ppr (out_tree nd xs ts) (out_tree_decoded nd xs ts)).
+  { rewrite Hout in Hef, Hfits. unfold out_tree, out_tree_decoded in *.
+    apply ppr_map_children with (g := fun t => if named n_moov t then out_moov nd xs t else t)
+                                (g' := fun t => if named n_moov t then out_moov_decoded nd xs t else norm_box t);
+      try assumption.
+    - unfold non_mdat. apply Forall_forall. intros t Hin. apply filter_In in Hin.
+      exact (proj1 (Forall_forall _ _) Hdx t (proj1 Hin)).
+    - intros c Hc Hec Htc. destruct (named n_moov c) eqn:En; [now apply ppr_out_moov|exact (dx_pp _ Hc)]. }
+  destruct (ppr_seq _ _ H2) as (enc & Henc & Hl & Hcount & Hrep).
+  rewrite <- Hout in Henc, Hl. rewrite Hseq in Henc. injection Henc as <-.
+  exists nd, xs, pre, body. repeat split; try assumption; try reflexivity.
+  unfold decode_file. specialize (Hrep _ _ 2%nat (mdat_decodes body Hpsz)).
+  replace (S (length (pre ++ enc_hdr n_mdat (8 + lenN body) ++ body)))
+    with ((length (out_tree nd xs ts) + 2) + (S (length (pre ++ enc_hdr n_mdat (8 + lenN body) ++ body)) - (length (out_tree nd xs ts) + 2)))%nat.
+  - apply decode_seq_mono. exact Hrep.
+  - rewrite !app_length. unfold enc_hdr. rewrite app_length, length_be_enc. cbn [length]. lia.
 Qed.
